@@ -165,3 +165,11 @@ package util
 //@   loops f(tk, tv) -> keep
 //@   where mhas(self, tk) && tv == mval(self, tk, tv)
 //@   until !keep
+
+// Filter2Slices collects through the closures of CompactAppendSlice; its body is
+// not verified here (trusted): the result holds elements of a only. (Callers that
+// need determinism scan its body syntactically: `opt deterministic`.)
+//@ func Filter2Slices
+//@   trusted
+//@   fnparam f pure
+//@   ensures forall(i, 0 <= i && i < len(r0) ==> exists(j, 0 <= j && j < len(a) && r0[i] == a[j]))
